@@ -100,6 +100,15 @@ static Reg r_sw("c13_sw", [](const Args& a) {
 });
 
 // ---------------------------------------------------------------------------------------------------------------
+// bookkeeping ops: the verdicts are computed in Lean (Corr/C13.lean)
+//   c13_selfcheck              labels and numeric codes of all keys of the Lean tables agree (executed natively by the driver)
+//   c13_entry name nin nout    one line per entry of the sweep table: must be a row of the Lean dependence table with these arities
+//   c13_entrycount n           ... and there are no further rows
+static Reg r_selfcheck("c13_selfcheck", [](const Args&) { emit("-"); });
+static Reg r_entry("c13_entry", [](const Args&) { emit("-"); });
+static Reg r_entrycount("c13_entrycount", [](const Args&) { emit("-"); });
+
+// ---------------------------------------------------------------------------------------------------------------
 // (entry, argument position) pairs with an *open* finding that aborts under UBSan: run in a forked child so that the
 // report becomes a #BAD line (matched by known_findings.json) and the rest of the sweep still runs
 static bool isolate(const std::string& entry, int pos, double v) {
@@ -140,6 +149,12 @@ void gv::generate(const std::string& tier, uint64_t seed) {
   // 1. sweep: every entry x every argument position x every special value (the table is finite: all of it, in both
   //    tiers; the k-th process of a run takes the k-th share, random off-grid values are added on top)
   int share = int(seed % 100), nshare = thorough ? 16 : 4;
+  if (share % nshare == 0) {
+    stratum("table-crosscheck");
+    run("c13_selfcheck", {});
+    for (const Entry& e : entries()) run("c13_entry", {e.name, std::to_string(e.base.size()), std::to_string(e.nout)});
+    run("c13_entrycount", {std::to_string(entries().size())});
+  }
   int idx = 0;
   for (const Entry& e : entries()) {
     if ((idx++ % nshare) != (share % nshare)) continue;
